@@ -65,6 +65,11 @@ def cases(tier, seed):
                 out.append(dict(layer=layer, mode='cmdt', size=size, w=1, bg_timer=0.9, fault=fault, seed=seed * 7919 + len(out)))
                 if fault != 'sil_resp':
                     out.append(dict(layer=layer, mode='bam', size=size, w=1, bg_timer=0.6, fault=fault, seed=seed * 7919 + len(out)))
+                # an impatient application re-submitting on the same pair as soon as the stack lets it (the receiver may still hold the faulted session)
+                for e0 in ((0.03, 0.4) if tier == 'quick' else (0.03, 0.2, 0.4, 0.8)):
+                    if fault != 'sil_resp':
+                        out.append(dict(layer=layer, mode='bam', size=size, w=1, early=e0, fault=fault, seed=seed * 7919 + len(out)))
+                    out.append(dict(layer=layer, mode='cmdt', size=size, w=2, early=e0, fault=fault, seed=seed * 7919 + len(out)))
     return out
 
 
@@ -108,6 +113,22 @@ def one_run(case, k, seed):
         args = (0, 0xFE, 0xF6, 6, list(pay))
     t0 = 0.02
     sim.at(t0, lambda: W.call('send', ca.send_pgn, *args))
+    early = dict(ret=None, t=None, tries=0)
+    payE = [(x ^ 0xC3) for x in pay]
+    if case.get('early'):
+        # an impatient application: it re-submits (another payload, same pair) every 40 ms until the stack accepts it -- possibly long before the
+        # other side has given the faulted session up
+        def retry():
+            if early['ret'] is True or sim.now > t0 + 4.0:
+                return
+            early['tries'] += 1
+            rec = W.call('early', ca.send_pgn, args[0], args[1], args[2], args[3], list(payE))
+            early['ret'] = rec['ret']
+            if rec['ret'] is True:
+                early['t'] = sim.now
+            else:
+                sim.after(0.04, retry)
+        sim.at(t0 + case['early'], retry)
     W.run(t0 + 9.5)
     n_frames_phase1 = len(W.bus.frames)
     wire1 = W.bus.wire_count
@@ -125,7 +146,7 @@ def one_run(case, k, seed):
     sim.at(sim.now + 0.01, lambda: fol.update(W.call('send2', ca.send_pgn, args[0], args[1], args[2], args[3], list(pay2))))
     W.run(sim.now + 9.0)
     fol_deliv = [d for d in W.deliv['B'][n_b:]]
-    res = dict(W=W, frames=W.bus.frames, n1=n_frames_phase1, wire1=wire1, sent_by1=sent_by1, pay=bytes(pay), pay2=bytes(pay2), deliv_A=deliv_A,
+    res = dict(early=early, payE=bytes(payE), W=W, frames=W.bus.frames, n1=n_frames_phase1, wire1=wire1, sent_by1=sent_by1, pay=bytes(pay), pay2=bytes(pay2), deliv_A=deliv_A,
                deliv_B=deliv_B, tabs=tabs, table_state=table_state, pools=pools, live=live, fol=fol, fol_deliv=fol_deliv,
                live2=W.liveness_problems(), first_call=W.calls[0] if W.calls else None)
     return res
@@ -136,7 +157,7 @@ def run_case(case):
     fd = layer == 'j1939-22'
     viol = M.Violations()
     obs = dict(faulted_runs=0, effective_faults=0, timeouts_measured=0, aborts_required_and_seen=0, followups_checked=0, delivered_exact=0,
-               delivered_nothing=0, tables_not_observed=0, timeout_max_ms=0, eomack_wait_max_ms=0)
+               delivered_nothing=0, tables_not_observed=0, timeout_max_ms=0, eomack_wait_max_ms=0, early_accepted=0, early_delivered=0)
     base = one_run(case, 0, case['seed'])
     base_sig = [(f.src, f.can_id, f.data) for f in base['frames'][:base['n1']]]
     ok = judge(case, base, 0, viol, obs, fault_free=True)
@@ -164,7 +185,7 @@ def run_case(case):
         r['W'].close()
     sample = dict(case=case, fault_points=F, baseline_frames=[f.brief() for f in base['frames'][:min(base['n1'], 10)]],
                   abort_reasons_seen=sorted(reasons))
-    return dict(violations=list(viol), inconclusive=None if F > 0 else 'baseline run produced no frames', sig=repr((layer, mode, size, w, case.get('wb'), case.get('dt_interval'), case.get('bam_interval'), case.get('lat_seed'), case.get('bg_timer'), fault)),
+    return dict(violations=list(viol), inconclusive=None if F > 0 else 'baseline run produced no frames', sig=repr((layer, mode, size, w, case.get('wb'), case.get('dt_interval'), case.get('bam_interval'), case.get('lat_seed'), case.get('bg_timer'), case.get('early'), fault)),
                 nontrivial=obs['effective_faults'] > 0, obs=obs, sample=sample)
 
 
@@ -188,12 +209,22 @@ def judge(case, r, k, viol, obs, fault_free=False, reasons=None):
     got = [d for d in r['deliv_B']]
     exact = [d for d in got if d[4] == r['pay'] and M.norm_pgn(d[2]) == exp_pgn and d[3] == 0x10]
     other = [d for d in got if d not in exact]
+    if case.get('early'):
+        # the early re-submission may or may not get through; if it does it must be exact, once
+        exE = [d for d in other if d[4] == r['payE'] and M.norm_pgn(d[2]) == exp_pgn and d[3] == 0x10]
+        other = [d for d in other if d not in exE]
+        if len(exE) > 1:
+            viol.add('duplicate_delivery', '%s: early re-submission delivered %d times' % (where, len(exE)), **tag)
+        if exE:
+            obs['early_delivered'] = obs.get('early_delivered', 0) + 1
+        if r['early']['ret'] is True:
+            obs['early_accepted'] = obs.get('early_accepted', 0) + 1
     if len(exact) > 1:
         viol.add('duplicate_delivery', '%s: payload delivered %d times' % (where, len(exact)), **tag)
     for d in other:
         kind = 'truncated_delivery' if len(d[4]) < len(r['pay']) and r['pay'].startswith(d[4][:max(1, len(d[4]))]) else 'corrupt_delivery'
         viol.add(kind, '%s: receiver got pgn=%05X sa=%02X len=%d (submitted len %d) %s...' % (where, d[2], d[3], len(d[4]), len(r['pay']), d[4][:10].hex()), **tag)
-    if fault_free and len(exact) != 1:
+    if fault_free and len(exact) != 1 and not case.get('early'):
         viol.add('missing_delivery', '%s: fault-free transfer not delivered' % where, **tag)
     if exact:
         obs['delivered_exact'] += 1
@@ -201,7 +232,7 @@ def judge(case, r, k, viol, obs, fault_free=False, reasons=None):
         obs['delivered_nothing'] += 1
     # originator side: only the EOM ack notification may be delivered
     for d in r['deliv_A']:
-        okk = M.norm_pgn(d[2]) == exp_pgn and len(r['deliv_A']) == 1       # the end-of-message acknowledgement notification (form not judged), once
+        okk = M.norm_pgn(d[2]) == exp_pgn and len(r['deliv_A']) <= (2 if case.get('early') else 1)       # the end-of-message acknowledgement notification (form not judged), once
         if not (okk and mode == 'cmdt' and d[3] == 0x20):
             viol.add('unexpected_delivery', '%s: originator listener got pgn=%05X sa=%02X len=%d' % (where, d[2], d[3], len(d[4])), **tag)
     # 2. M-TMO: every table entry disappears within bound of the node's last session activity
@@ -258,7 +289,7 @@ def judge(case, r, k, viol, obs, fault_free=False, reasons=None):
                 if v is not None and not all(v):
                     viol.add('pool_not_full', '%s: %s %s pool %s at the quiet point' % (where, nm, pn, v), pool=pn, **tag)
     # 3. abort frames
-    if mode == 'cmdt' and not fault_free:
+    if mode == 'cmdt' and not fault_free and not case.get('early'):
         aborts = [(f, C.split_id(f.can_id)) for f in frames1 if is_abort(f, fd)]
         for f, idf in aborts:
             reason = f.data[8] if fd else f.data[1]
